@@ -62,11 +62,48 @@ def run_test(ctx, binp, test, env, timeout=900):
                        timeout=timeout + 30, env=e)
 
 
-def run_parallel(ctx, jobs, workers=8):
-    """jobs: list of (binp, test, env, timeout) -> list of (rc, out) in order"""
+def inconclusive_reason(rc, out):
+    m = [l for l in out.splitlines() if l.startswith("E4-INCONCLUSIVE")]
+    if m:
+        return m[0][:300]
+    if rc == -9:
+        return "harness run exceeded its time box"
+    return "exit %s: %s" % (rc, " / ".join(out.strip().splitlines()[-2:])[:300])
+
+
+def run_leg(ctx, binp, test, env, timeout=900, real_failure=None):
+    """One harness leg. A run that ends non-zero WITHOUT a real failure (a failure of the daemon as
+    judged by `real_failure(rc, out)`: crash, oracle output) says nothing about nsqlookupd — the
+    harness gave up on its own I/O budget, or the box was too loaded. It is re-run once in a
+    fresh process; only a failure that persists is returned, the first one goes to the notes."""
+    rc, out = run_test(ctx, binp, test, env, timeout)
+    if rc == 0 or (real_failure and real_failure(rc, out)):
+        return rc, out
+    why = inconclusive_reason(rc, out)
+    ctx.log("%s: inconclusive (%s); re-running once" % (test, why))
+    rc2, out2 = run_test(ctx, binp, test, env, timeout)
+    if rc2 == 0:
+        ctx.notes.append("%s %s: first run inconclusive (%s); the re-run in a fresh process passed" % (
+            test, {k: v for k, v in env.items() if "SHARD" in k}, why))
+    return rc2, out2
+
+
+def run_parallel(ctx, jobs, workers=8, real_failure=None):
+    """jobs: list of (binp, test, env, timeout) -> list of (rc, out) in order; failed jobs are
+    re-run once, one after the other (see run_leg)"""
     with concurrent.futures.ThreadPoolExecutor(max_workers=workers) as ex:
         futs = [ex.submit(run_test, ctx, *j) for j in jobs]
-        return [f.result() for f in futs]
+        res = [f.result() for f in futs]
+    for k, (rc, out) in enumerate(res):
+        if rc != 0 and not (real_failure and real_failure(rc, out)):
+            why = inconclusive_reason(rc, out)
+            ctx.log("%s %s: inconclusive (%s); re-running once" % (jobs[k][1], jobs[k][2], why))
+            rc2, out2 = run_test(ctx, *jobs[k])
+            if rc2 == 0:
+                ctx.notes.append("%s %s: first run inconclusive (%s); the re-run in a fresh process passed" % (
+                    jobs[k][1], {a: b for a, b in jobs[k][2].items() if "SHARD" in a}, why))
+            res[k] = (rc2, out2)
+    return res
 
 
 def read_lines(path):
@@ -331,6 +368,21 @@ class PySpec:
         elif k == "disconnect":
             self.disconnect(int(w[2]))
             out = "closed"
+        elif k == "abort":
+            # the command is executed, its answer cannot be delivered, the connection is gone at once
+            p_, kind, a = int(w[2]), w[3], w[4:]
+            if kind == "identify":
+                self.identify(p_, (unhex(a[0]), unhex(a[1]), unhex(a[2]), int(a[3]), int(a[4])), now)
+            elif kind == "register":
+                self.register(p_, [unhex(x) for x in a])
+            elif kind == "unregister":
+                self.unregister(p_, [unhex(x) for x in a])
+            elif kind == "ping":
+                self.ping(p_, now)
+            else:
+                return None
+            self.disconnect(p_)
+            out = "aborted"
         elif k == "http":
             if opt(w[4]) == b"*" and w[2] == "tombstone":
                 return None
